@@ -9,6 +9,14 @@ verus! {
 //@include prelude/math.rs
 //@include prelude/nd_shim.rs
 //@include prelude/nd_shim_ops.rs
+//@include prelude/tol_spec.rs
+// rule I5: `<array1>.into_iter().all(|x| x >= A::from(<literal>).unwrap())` is replaced by this helper: every element is at least the literal num/den
+// (exact-real comparison, like every float operation of these units)
+#[verifier::external_body]
+pub fn all_ge_lit<S: Data<Elem = A>, A: Float>(d: ArrayBase<S, Ix1>, num: i64, den: u64) -> (r: bool)
+    requires den > 0
+    ensures r == forall|i: int| 0 <= i < d.v().len() ==> #[trigger] d.v()[i] >= (num as real) / (den as real)
+{ unimplemented!() }
 
 //@item src/linalg/affine.rs | struct AffFuncBase
 //@item src/linalg/affine.rs | struct FunctionT
@@ -531,6 +539,26 @@ impl<D: Data<Elem = A>, A: Float + LinalgScalar> AffFuncBase<PolytopeT, D> {
     ensures r.v() == vsub(self.bias.v(), mv(self.mat.m(), point.v()))
 //@hint start
         broadcast use axiom_array2_shape;
+//@end
+}
+
+// the membership test used by every witness cache (C05): every row within the documented tolerance 1e-8, on the un-normalised rows
+impl<D: Data<Elem = A>, A: Float + LinalgScalar> AffFuncBase<PolytopeT, D> {
+//@fn src/linalg/affine.rs | impl<D: Data<Elem = A>, A: Float + LinalgScalar> AffFuncBase<PolytopeT, D> | contains
+//@bodysub self.distance_raw(point) .into_iter() .all(|x| x >= A::from(-1e-8).unwrap()) => all_ge_lit(self.distance_raw(point), -1, 100000000)
+//@spec
+    requires self.ok(), point.v().len() == self.mat.ncols()
+    ensures r == tol_sat(self.mat.m(), self.bias.v(), point.v())
+//@hint start
+        broadcast use axiom_array2_shape;
+        proof {
+            let d = vsub(self.bias.v(), mv(self.mat.m(), point.v()));
+            assert(-(1real / 100000000real) == ((-1i64) as real) / (100000000u64 as real));
+            assert forall|i: int| 0 <= i < self.mat.nrows() implies (#[trigger] tol_row(self.mat.m(), self.bias.v(), point.v(), i) <==> d[i] >= -tol()) by {}
+            if tol_sat(self.mat.m(), self.bias.v(), point.v()) {
+                assert forall|i: int| 0 <= i < d.len() implies #[trigger] d[i] >= -tol() by { assert(tol_row(self.mat.m(), self.bias.v(), point.v(), i)); }
+            }
+        }
 //@end
 }
 
